@@ -430,14 +430,13 @@ func rulesC16(w *World, r *Report) {
 		if fn.Parent() != nil || fn.Signature.Recv() != nil {
 			continue
 		}
-		sig := fn.Signature
-		if sig.Params().Len() != 2 || typeStr(sig.Params().At(0).Type()) != "reflect.Type" {
+		if !isTypeWalker(fn) {
 			continue
 		}
-		if _, isMap := sig.Params().At(1).Type().Underlying().(*types.Map); !isMap {
-			continue
-		}
-		rec := callsTo(fn, fn)
+		// recursive calls: to fn itself or to another walker (same signature
+		// shape) from which fn is reached again — a struct case extracted into
+		// a helper recurses through the dispatcher
+		rec := w.typeWalkRecCalls(fn)
 		if len(rec) == 0 {
 			continue
 		}
@@ -505,6 +504,7 @@ func rulesC16(w *World, r *Report) {
 	}
 	// R1b: value walk with an extractor
 	ev := w.fn("ExtractValue")
+	var vw *valueWalk
 	if ev == nil {
 		r.undecided("C16.R1 recursion has a visited cut-off", "ExtractValue", "-", "anchor not found")
 	} else {
@@ -522,18 +522,42 @@ func rulesC16(w *World, r *Report) {
 				}
 			}
 		}
-		cnt := 0
-		for _, c := range callsTo(ev, ev) {
-			nR++
-			cnt++
-			ok := verdict != nil && verdict.Dominates(c.Block())
-			r.add("C16.R1 recursion has a visited cut-off", fmt.Sprintf("ExtractValue · recursive call #%d", cnt), w.instrPos(c), ok, "dominated by the true edge of the extractor's verdict")
-		}
-		// extractor closures
-		for _, fn := range w.SrcFuncs() {
-			if fn.Parent() == nil || fn.Signature.Params().Len() != 1 || typeStr(fn.Signature.Params().At(0).Type()) != "reflect.Value" || fn.Signature.Results().Len() != 1 || typeStr(fn.Signature.Results().At(0).Type()) != "bool" {
-				continue
+		// the walk: ExtractValue and the helpers on a call cycle through it.  A
+		// call from a member to a member is a recursive call; every cycle passes
+		// through ExtractValue, whose own recursive calls follow the verdict.
+		vw = w.valueWalkOf(ev)
+		for _, g := range vw.fns {
+			cnt := 0
+			for _, c := range vw.walkCalls(g) {
+				nR++
+				cnt++
+				if g == ev {
+					ok := verdict != nil && verdict.Dominates(c.Block())
+					r.add("C16.R1 recursion has a visited cut-off", fmt.Sprintf("ExtractValue · recursive call #%d", cnt), w.instrPos(c), ok, "dominated by the true edge of the extractor's verdict")
+				} else {
+					r.fnSeen(fnName(g))
+					r.add("C16.R1 recursion has a visited cut-off", fmt.Sprintf("%s · recursive call #%d", fnName(g), cnt), w.instrPos(c), vw.restA,
+						fmt.Sprintf("a helper of the walk: every call cycle through it passes through ExtractValue (the helpers form no cycle among themselves)=%v, whose calls into the walk follow the verdict", vw.restA))
+				}
 			}
+		}
+		// extractors: function literals of the extractor signature, and whatever
+		// is handed to the walk as its extractor (named function, method value)
+		var extractors []*ssa.Function
+		isExtr := map[*ssa.Function]bool{}
+		for _, fn := range w.SrcFuncs() {
+			if fn.Parent() != nil && isExtractorSig(fn) {
+				extractors = append(extractors, fn)
+				isExtr[fn] = true
+			}
+		}
+		for _, fn := range vw.extractorsOf() {
+			if !isExtr[fn] {
+				extractors = append(extractors, fn)
+				isExtr[fn] = true
+			}
+		}
+		for _, fn := range extractors {
 			nR++
 			r.fnSeen(fnName(fn))
 			f := w.flow(fn)
@@ -572,7 +596,7 @@ func rulesC16(w *World, r *Report) {
 								}
 								for _, b3 := range fn.Blocks {
 									for _, i3 := range b3.Instrs {
-										if mu, isMU := i3.(*ssa.MapUpdate); isMU && b3.Dominates(b) && f.term(mu.Key).Key() == f.term(lk.Index).Key() && sameCell(mu.Map, lk.X) {
+										if mu, isMU := i3.(*ssa.MapUpdate); isMU && b3.Dominates(b) && f.term(mu.Key).Key() == f.term(lk.Index).Key() && (sameCell(mu.Map, lk.X) || f.term(mu.Map).Key() == f.term(lk.X).Key()) {
 											good = true
 										}
 									}
@@ -594,22 +618,24 @@ func rulesC16(w *World, r *Report) {
 	}
 	r.floor("C16.R1 recursion obligations", nR, 6)
 	if ev != nil {
-		w.ruleWalkVisitsAll(r, "C16.R4 the value walk visits every element", ev)
+		w.ruleWalkVisitsAll(r, "C16.R4 the value walk visits every element", vw)
 	}
 
 	// R2 absent containers are descended by type
 	if ev != nil {
-		f := w.flow(ev)
 		kinds := map[string]bool{}
-		for _, c := range callsTo(ev, ev) {
-			arg := c.Call.Args[0]
-			nc, ok := arg.(*ssa.Call)
-			if !ok || nc.Call.StaticCallee() == nil || qualifiedFnName(nc.Call.StaticCallee()) != "reflect.New" {
-				continue
-			}
-			ks := f.kindsAt(c.Block())
-			for _, k := range ks {
-				kinds[k] = true
+		for _, g := range vw.fns {
+			for _, c := range callsTo(g, ev) {
+				arg := c.Call.Args[0]
+				nc, ok := arg.(*ssa.Call)
+				if !ok || nc.Call.StaticCallee() == nil || qualifiedFnName(nc.Call.StaticCallee()) != "reflect.New" {
+					continue
+				}
+				// kinds under which the call is made (inside a helper: the kinds
+				// under which the helper is entered)
+				for _, k := range vw.kindsAt(c.Block()) {
+					kinds[k] = true
+				}
 			}
 		}
 		for _, k := range []string{"Slice", "Map"} {
@@ -617,10 +643,12 @@ func rulesC16(w *World, r *Report) {
 		}
 		// pointers: IsNil test whose true edge feeds reflect.New(v.Type().Elem()) into the value that is extracted
 		ptrOK := false
-		fns := []*ssa.Function{ev}
-		for _, cs := range w.callSitesIn(ev) {
-			if sc := cs.call.Call.StaticCallee(); sc != nil && w.inPkg(sc) && sc != ev {
-				fns = append(fns, sc)
+		fns := append([]*ssa.Function{}, vw.fns...)
+		for _, g := range vw.fns {
+			for _, sc := range w.staticPkgCallees(g) {
+				if !vw.in[sc] {
+					fns = append(fns, sc)
+				}
 			}
 		}
 		for _, g := range fns {
@@ -650,9 +678,12 @@ func rulesC16(w *World, r *Report) {
 
 	// R3 paired map writes
 	nP := 0
+	// the construction of the two maps: the map builder, its function literals,
+	// and the in-package functions it reaches (helpers, a collector's methods
+	// handed over as method values)
+	building := w.reachStaticPkg(w.fn("ExtractTypeNameMap"))
 	for _, fn := range w.SrcFuncs() {
-		root := rootFn(fn)
-		if root.Name() != "ExtractTypeNameMap" {
+		if !building[fn] {
 			continue
 		}
 		f := w.flow(fn)
@@ -690,76 +721,99 @@ func rulesC16(w *World, r *Report) {
 // ruleWalkVisitsAll: every loop of the value walk that recurses leaves only
 // through its counter/range and makes the same number of recursive calls on
 // every iteration path (1 per element or field, 2 per map entry).
-func (w *World) ruleWalkVisitsAll(r *Report, rule string, ev *ssa.Function) {
+func (w *World) ruleWalkVisitsAll(r *Report, rule string, vw *valueWalk) {
 	n := 0
-	f := w.flow(ev)
-	for li, lp := range naturalLoops(ev) {
-		has := false
-		for b := range lp.body {
-			if len(callsToIn(b, ev)) > 0 {
-				has = true
+	for _, g := range vw.fns {
+		for li, lp := range naturalLoops(g) {
+			has := false
+			for b := range lp.body {
+				if len(vw.walkCallsIn(b)) > 0 {
+					has = true
+				}
 			}
-		}
-		if !has {
-			continue
-		}
-		n++
-		key := fmt.Sprintf("ExtractValue · loop#%d", li+1)
-		// exits
-		okExit := true
-		factExit := "leaves only through its counter"
-		for b := range lp.body {
-			for _, s2 := range b.Succs {
+			if !has {
+				continue
+			}
+			n++
+			key := fmt.Sprintf("%s · loop#%d", fnName(g), li+1)
+			// exits
+			okExit := true
+			factExit := "leaves only through its counter"
+			for b := range lp.body {
+				for _, s2 := range b.Succs {
+					if lp.body[s2] {
+						continue
+					}
+					iff, isIf := b.Instrs[len(b.Instrs)-1].(*ssa.If)
+					if !isIf {
+						continue
+					}
+					kind, detail := w.classifyExitCond(iff.Cond, map[*ssa.Call]bool{}, lp)
+					if kind != "counter" {
+						okExit = false
+						factExit = "the loop is left on " + detail + " at " + w.instrPos(iff) + ": the remaining elements are not walked, so types reachable only through them are missing from the maps"
+					}
+				}
+			}
+			// invocations of the walk per completed iteration: a call of
+			// ExtractValue counts 1, a call of a helper counts what the helper
+			// invokes on every path through it
+			counts := map[int]bool{}
+			var dfs func(b *ssa.BasicBlock, k int, seen map[*ssa.BasicBlock]bool)
+			dfs = func(b *ssa.BasicBlock, k int, seen map[*ssa.BasicBlock]bool) {
+				if b == lp.header {
+					counts[k] = true
+					return
+				}
+				if !lp.body[b] || seen[b] || len(counts) > 16 {
+					return
+				}
+				seen[b] = true
+				defer delete(seen, b)
+				ks := []int{k}
+				for _, c := range vw.walkCallsIn(b) {
+					var next []int
+					for _, iv := range vw.invocations(c.Call.StaticCallee()) {
+						for _, a := range ks {
+							if iv < 0 || a < 0 {
+								next = append(next, -1)
+							} else {
+								next = append(next, a+iv)
+							}
+						}
+					}
+					ks = uniqInts(next)
+				}
+				for _, k2 := range ks {
+					if k2 < 0 {
+						counts[-1] = true
+						continue
+					}
+					for _, s2 := range b.Succs {
+						dfs(s2, k2, seen)
+					}
+				}
+			}
+			for _, s2 := range lp.header.Succs {
 				if lp.body[s2] {
-					continue
-				}
-				iff, isIf := b.Instrs[len(b.Instrs)-1].(*ssa.If)
-				if !isIf {
-					continue
-				}
-				kind, detail := w.classifyExitCond(iff.Cond, map[*ssa.Call]bool{}, lp)
-				if kind != "counter" {
-					okExit = false
-					factExit = "the loop is left on " + detail + " at " + w.instrPos(iff) + ": the remaining elements are not walked, so types reachable only through them are missing from the maps"
+					dfs(s2, 0, map[*ssa.BasicBlock]bool{})
 				}
 			}
-		}
-		counts := map[int]bool{}
-		var dfs func(b *ssa.BasicBlock, k int, seen map[*ssa.BasicBlock]bool)
-		dfs = func(b *ssa.BasicBlock, k int, seen map[*ssa.BasicBlock]bool) {
-			if b == lp.header {
-				counts[k] = true
-				return
+			var got []int
+			for k := range counts {
+				got = append(got, k)
 			}
-			if !lp.body[b] || seen[b] {
-				return
+			sort.Ints(got)
+			kinds := vw.kindsAt(lp.header)
+			want := 1
+			for _, k := range kinds {
+				if k == "Map" && len(kinds) == 1 {
+					want = 2
+				}
 			}
-			seen[b] = true
-			defer delete(seen, b)
-			k += len(callsToIn(b, ev))
-			for _, s2 := range b.Succs {
-				dfs(s2, k, seen)
-			}
+			ok := okExit && len(got) == 1 && got[0] == want
+			r.add(rule, key, w.pos(g.Pos()), ok, fmt.Sprintf("kinds %v: %s; invocations of the walk per completed iteration %v (want exactly %d)", kinds, factExit, got, want))
 		}
-		for _, s2 := range lp.header.Succs {
-			if lp.body[s2] {
-				dfs(s2, 0, map[*ssa.BasicBlock]bool{})
-			}
-		}
-		var got []int
-		for k := range counts {
-			got = append(got, k)
-		}
-		sort.Ints(got)
-		kinds := f.kindsAt(lp.header)
-		want := 1
-		for _, k := range kinds {
-			if k == "Map" && len(kinds) == 1 {
-				want = 2
-			}
-		}
-		ok := okExit && len(got) == 1 && got[0] == want
-		r.add(rule, key, w.pos(ev.Pos()), ok, fmt.Sprintf("kinds %v: %s; recursive calls per completed iteration %v (want exactly %d)", kinds, factExit, got, want))
 	}
 	r.floor(rule, n, 3)
 }
